@@ -14,6 +14,11 @@ package raftv2
 // kind "val": Cluster.validateChangeMembership on a cluster built from the case.
 // kind "seq": sequences of requests: validateChangeMembership, then the real Cluster.addMember
 //   (applied) / removeMember when accepted; applied and removed id sets after every request.
+// kind "eta": raftServer.entriesToApply; kind "ts": raftServer.triggerSnapshot on a real MemoryStorage / WalDB;
+// kind "prop": Cluster.submitProposal / makeProposal / AfterConfChange (the single proposal slot).
+// WAL histories additionally run raftServer.replayWAL on every state (the hand-over of the stored log to the
+// consensus library's MemoryStorage) and ChainDB.HasWal; request sequences can restart the cluster through
+// ChainSnapshotter.createSnapshotData + Cluster.Recover.
 // kind "en":  Cluster.isEnableChangeMembership with a raftServer whose raft node is a fake
 //   returning the raft Status (progress map) of the case.
 
@@ -59,6 +64,17 @@ type c16Case struct {
 	Nid    uint64    `json:"nid"`
 	// seq
 	Reqs [][]int64 `json:"reqs"`
+	// wal: HasWal queries (name, peer id)
+	Qs [][]int64 `json:"qs"`
+	// eta / ts / prop
+	Applied64 uint64          `json:"appliedidx"`
+	Idxs      []uint64        `json:"idxs"`
+	Idx       uint64          `json:"idx"`
+	Snap      uint64          `json:"snap"`
+	Freq      uint64          `json:"freq"`
+	Catchup   uint64          `json:"catchup"`
+	Cap       int             `json:"cap"`
+	POps      [][]interface{} `json:"pops"`
 }
 
 const unknownID = 7777777
@@ -331,6 +347,64 @@ func (e *walEnv) observe(cdb *chain.ChainDB, c *c16Case) []int64 {
 		n = append(n, 0)
 		n = e.encRaftEntries(n, ents)
 	}
+	n = e.observeServer(n, cdb, c, snap, id)
+	return n
+}
+
+// replayWAL stops the process (logger.Fatal) when ReadAll fails or the identity cannot be recovered: it is only
+// called when neither happens; the model says "does not start" (0) for the same states
+func (e *walEnv) observeServer(n []int64, cdb *chain.ChainDB, c *c16Case, snap *raftpb.Snapshot, id *consensus.RaftIdentity) []int64 {
+	wal := NewWalDB(cdb)
+	_, _, _, rerr := wal.ReadAll(snap)
+	// (a stored snapshot with index 0 is refused by MemoryStorage.ApplySnapshot: Fatal as well)
+	if id == nil || id.ClusterID == 0 || rerr != nil || (snap != nil && snap.Metadata.Index == 0) {
+		n = append(n, 0)
+	} else {
+		cl := mkCluster(nil, nil)
+		cl.identity = consensus.RaftIdentity{Name: id.Name, PeerID: id.PeerID}
+		rs := &raftServer{walDB: wal, cluster: cl}
+		ok := func() (ok bool) {
+			defer func() {
+				if x := recover(); x != nil {
+					ok = false
+				}
+			}()
+			return rs.replayWAL(snap) == nil
+		}()
+		if !ok {
+			n = append(n, 2)
+		} else {
+			ms := rs.raftStorage
+			first, _ := ms.FirstIndex()
+			last, _ := ms.LastIndex()
+			hs, _, _ := ms.InitialState()
+			sn, _ := ms.Snapshot()
+			n = append(n, 1, int64(sn.Metadata.Index), int64(sn.Metadata.Term), int64(first), int64(last), int64(rs.lastIndex),
+				1, int64(hs.Term), int64(hs.Vote), int64(hs.Commit))
+			var ents []raftpb.Entry
+			if first <= last {
+				ents, _ = ms.Entries(first, last+1, 1<<62)
+			}
+			n = e.encRaftEntries(n, ents)
+		}
+	}
+	for _, q := range c.Qs {
+		okw, err := cdb.HasWal(consensus.RaftIdentity{Name: fmt.Sprintf("n%d", q[0]), PeerID: fmt.Sprintf("p%d", q[1])})
+		switch {
+		case okw:
+			n = append(n, 0)
+		case err == nil:
+			n = append(n, 1)
+		case err == chain.ErrWalNotEqualIdentityName:
+			n = append(n, 2)
+		case err == chain.ErrWalNotEqualIdentityPeerID:
+			n = append(n, 3)
+		case err == chain.ErrWalNoHardState:
+			n = append(n, 4)
+		default:
+			n = append(n, 99)
+		}
+	}
 	return n
 }
 
@@ -493,6 +567,33 @@ func runSeq(c *c16Case) interface{} {
 	}
 	var steps []step
 	for _, r := range c.Reqs {
+		if r[0] == 9 {
+			// restart: snapshot data from the running cluster, Recover into a cluster that still has the
+			// initial configuration
+			cs := &raftpb.ConfState{Nodes: sortedIDs(cl.appliedMembers.MapByID)}
+			blk := types.NewBlock(&types.BlockHeaderInfo{No: 1, Ts: 1, PrevBlockHash: make([]byte, 32), ChainId: []byte{1}}, make([]byte, 32), &types.Receipts{}, nil, nil, nil)
+			sd, err := (&ChainSnapshotter{}).createSnapshotData(cl, blk, cs)
+			if err != nil {
+				panic(err)
+			}
+			data, _ := sd.Encode()
+			stale := mkCluster(nil, nil)
+			for _, a := range c.Applied {
+				m := mkMemberP(a)
+				stale.appliedMembers.add(m)
+				stale.members.add(m)
+			}
+			eq, err := stale.Recover(&raftpb.Snapshot{Data: data})
+			code := int64(0)
+			if err != nil {
+				code = 98
+			} else if eq {
+				code = 10
+			}
+			cl = stale
+			steps = append(steps, step{code, sortedIDs(cl.appliedMembers.MapByID), sortedIDs(cl.removedMembers.MapByID)})
+			continue
+		}
 		m := mkMemberP(r[1:])
 		cc := &raftpb.ConfChange{Type: raftpb.ConfChangeType(r[0]), NodeID: m.ID}
 		err := cl.validateChangeMembership(cc, m, true)
@@ -509,6 +610,109 @@ func runSeq(c *c16Case) interface{} {
 			}
 		}
 		steps = append(steps, step{code, sortedIDs(cl.appliedMembers.MapByID), sortedIDs(cl.removedMembers.MapByID)})
+	}
+	return map[string]interface{}{"steps": steps}
+}
+
+func runEta(c *c16Case) interface{} {
+	rs := &raftServer{}
+	rs.appliedIndex = c.Applied64
+	var ents []raftpb.Entry
+	for _, i := range c.Idxs {
+		ents = append(ents, raftpb.Entry{Index: i, Term: 1})
+	}
+	if len(ents) > 0 && ents[0].Index > rs.appliedIndex+1 {
+		return map[string]interface{}{"obs": []uint64{0}} // logger.Fatal in the code
+	}
+	res := []uint64{1}
+	for _, en := range rs.entriesToApply(ents) {
+		res = append(res, en.Index)
+	}
+	return map[string]interface{}{"obs": res}
+}
+
+func runTs(t *testing.T, c *c16Case) interface{} {
+	store := db.NewDB(db.MemoryImpl, t.TempDir())
+	cdb, err := chain.VerifNewChainDBOnStore(store)
+	if err != nil {
+		t.Fatal(err)
+	}
+	cl := mkCluster(nil, nil)
+	m := mkMemberP([]int64{1, 1, 1, 1})
+	cl.appliedMembers.add(m)
+	ms := raftlib.NewMemoryStorage()
+	if c.Snap > 0 {
+		ms.ApplySnapshot(raftpb.Snapshot{Metadata: raftpb.SnapshotMetadata{Index: c.Snap, Term: 1}})
+	}
+	var ents []raftpb.Entry
+	for i := c.Snap + 1; i <= c.Idx+3; i++ {
+		ents = append(ents, raftpb.Entry{Index: i, Term: 1})
+	}
+	ms.Append(ents)
+	blk := types.NewBlock(&types.BlockHeaderInfo{No: 1, Ts: 1, PrevBlockHash: make([]byte, 32), ChainId: []byte{1}}, make([]byte, 32), &types.Receipts{}, nil, nil, nil)
+	rs := &raftServer{cluster: cl, raftStorage: ms, walDB: NewWalDB(cdb), snapshotter: &ChainSnapshotter{},
+		snapshotIndex: c.Snap, snapFrequency: c.Freq, confState: &raftpb.ConfState{Nodes: []uint64{1}}}
+	rs.commitProgress.connect = commitEntry{block: blk, index: c.Idx, term: 1}
+	old := ConfSnapshotCatchUpEntriesN
+	ConfSnapshotCatchUpEntriesN = c.Catchup
+	defer func() { ConfSnapshotCatchUpEntriesN = old }()
+	rs.triggerSnapshot()
+	sn, _ := cdb.GetSnapshot()
+	if sn == nil {
+		return map[string]interface{}{"obs": []uint64{0}, "snapidx": rs.snapshotIndex}
+	}
+	first, _ := ms.FirstIndex()
+	return map[string]interface{}{"obs": []uint64{1, sn.Metadata.Index, first - 1, rs.snapshotIndex}, "snapidx": rs.snapshotIndex}
+}
+
+func runProp(c *c16Case) interface{} {
+	cl := mkCluster(nil, nil)
+	cl.appliedMembers.add(mkMemberP([]int64{1, 1, 1, 1}))
+	cl.confChangeC = make(chan *consensus.ConfChangePropose, c.Cap)
+	type st struct {
+		Code  int64  `json:"code"`
+		Saved uint64 `json:"saved"`
+		Chan  int    `json:"chan"`
+	}
+	var steps []st
+	for _, op := range c.POps {
+		code := int64(0)
+		switch op[0].(string) {
+		case "submit":
+			err := cl.submitProposal(&consensus.ConfChangePropose{Cc: &raftpb.ConfChange{ID: u(op[1])}}, true)
+			switch err {
+			case nil:
+			case ErrPendingConfChange:
+				code = 1
+			case ErrConfChangeChannelBusy:
+				code = 2
+			default:
+				code = 99
+			}
+		case "make":
+			req := &types.MembershipChange{Type: types.MembershipChangeType_REMOVE_MEMBER, RequestID: u(op[1]), Attr: &types.MemberAttr{ID: 1}}
+			_, err := cl.makeProposal(req, true)
+			switch err {
+			case nil:
+			case ErrPendingConfChange:
+				code = 1
+			default:
+				code = 99
+			}
+		case "after":
+			cl.AfterConfChange(&raftpb.ConfChange{ID: u(op[1])}, nil, nil)
+		case "take":
+			select {
+			case <-cl.confChangeC:
+			default:
+				code = 3
+			}
+		}
+		saved := uint64(0)
+		if cl.savedChange != nil {
+			saved = cl.savedChange.Cc.ID
+		}
+		steps = append(steps, st{code, saved, len(cl.confChangeC)})
 	}
 	return map[string]interface{}{"steps": steps}
 }
@@ -597,6 +801,12 @@ func TestVerifC16Engine(t *testing.T) {
 			res = runEn(&c)
 		case "seq":
 			res = runSeq(&c)
+		case "eta":
+			res = runEta(&c)
+		case "ts":
+			res = runTs(t, &c)
+		case "prop":
+			res = runProp(&c)
 		}
 		if err := enc.Encode(res); err != nil {
 			t.Fatal(err)
